@@ -102,6 +102,7 @@ type Client struct {
 	mode    string // "snap" | "resume" | "stream"   (submatview/handler.go: snapshotHandler / resumeStreamHandler / eventStreamHandler)
 	acc     []*pbsubscribe.Event
 	accProj []M
+	sbirth  uint64 // raft index of the store when the snapshot of the current subscription was built
 	snapidx uint64 // index of the end-of-snapshot event last delivered on the current subscription
 	ridx    uint64 // raft index of the last restore that preceded the current subscription
 }
@@ -119,6 +120,7 @@ type W struct {
 	snaps     map[uint64][]byte
 	keepSnaps bool
 	publishes int
+	snapBirth map[string]uint64
 	cancel    context.CancelFunc
 	Deny      map[string][]string       // token -> service / config entry names it may not read
 	authz     map[string]acl.Authorizer // the real authorizers built from Deny
@@ -156,7 +158,7 @@ func (w *W) SetDeny(deny map[string][]string) error {
 
 // New builds a publisher (not running), an FSM whose state stores publish into it, and nc clients.
 func New(nc int, ttl bool, universe []TS, keepSnaps bool) (*W, error) {
-	w := &W{TTL: ttl, Universe: universe, snaps: map[uint64][]byte{}, keepSnaps: keepSnaps}
+	w := &W{TTL: ttl, Universe: universe, snaps: map[uint64][]byte{}, keepSnaps: keepSnaps, snapBirth: map[string]uint64{}}
 	d := time.Duration(0)
 	if ttl {
 		d = 1000 * time.Hour // never fires by itself; expiry is the schedule's "expire" command
@@ -665,13 +667,39 @@ func (w *W) Subscribe(c M) (M, M, error) {
 	if err != nil {
 		return nil, nil, err
 	}
+	t0, s0 := w.topicSubject(ts)
+	_, cerr, cached := w.Pub.VerifSnapCache(t0, s0)
+	cached = cached && cerr == nil
 	sub, err := w.Pub.Subscribe(subReq)
 	if err != nil {
 		return M{"ok": false}, M{"fromidx": from, "q": q, "skey": w.SKey(ts)}, nil
 	}
 	cl.sub, cl.ts, cl.tok, cl.live, cl.ever = sub, ts, str(c["tok"]), true, true
 	cl.snapidx, cl.ridx = 0, w.Ridx
+	// raft index of the store the subscription's snapshot was read from (a cached snapshot is older than the
+	// subscription); 0 when the subscription was resumed without a snapshot
+	key := ts.key()
+	switch {
+	case from > 0 && len(pendK(sub)) == 0 || from > 0 && pendK(sub)[0] != "nstf":
+		cl.sbirth = 0
+	case cached:
+		cl.sbirth = w.snapBirth[key]
+	default:
+		cl.sbirth = w.Idx
+		if w.TTL {
+			w.snapBirth[key] = w.Idx
+		}
+	}
 	return M{"ok": true, "direct": w.DirectAt(ts, from)}, M{"fromidx": from, "q": q, "skey": w.SKey(ts)}, nil
+}
+
+func pendK(sub *stream.Subscription) []string {
+	bs, _ := sub.VerifPending()
+	out := []string{}
+	for _, b := range bs {
+		out = append(out, projItem(b)["k"].(string))
+	}
+	return out
 }
 
 func eventsFromEvent(e *pbsubscribe.Event) []*pbsubscribe.Event {
@@ -773,6 +801,12 @@ func (w *W) Next(c M) (M, error) {
 		if ev.IsEndOfSnapshot() {
 			cl.snapidx = ev.Index
 		}
+		// what is left of the delivery for this subscriber (a batch has been filtered by HasReadPermission)
+		seen := M{"k": item["k"], "idx": item["idx"], "evs": []M{}}
+		if item["k"] == "ev" {
+			seen["evs"] = append([]M{}, projEvent(ev)...)
+		}
+		res["seen"] = seen["evs"]
 		if PerturbAt > 0 && cl.mode == "stream" && item["k"] == "ev" {
 			perturbSeen++
 			if perturbSeen == PerturbAt {
@@ -781,7 +815,7 @@ func (w *W) Next(c M) (M, error) {
 				break
 			}
 		}
-		if aerr := cl.apply(ev.Payload.ToSubscriptionEvent(ev.Index), item); aerr != nil {
+		if aerr := cl.apply(ev.Payload.ToSubscriptionEvent(ev.Index), seen); aerr != nil {
 			res["applyerr"] = aerr.Error()
 			cl.view.Reset()
 			cl.vidx = 0
@@ -879,7 +913,7 @@ func (w *W) Project() (M, error) {
 	cls := []M{}
 	for _, cl := range w.Cl {
 		m := M{"state": "none", "live": cl.live, "topic": cl.ts.Topic, "subj": w.SKey(cl.ts), "tok": cl.tok, "pend": []M{}, "perr": false,
-			"snapidx": cl.snapidx, "ridx": cl.ridx, "view": w.viewRows(cl), "vidx": cl.vidx, "mode": cl.mode, "acc": append([]M{}, cl.accProj...)}
+			"snapidx": cl.snapidx, "sbirth": cl.sbirth, "ridx": cl.ridx, "view": w.viewRows(cl), "vidx": cl.vidx, "mode": cl.mode, "acc": append([]M{}, cl.accProj...)}
 		if cl.sub != nil {
 			m["state"] = stateNames[cl.sub.VerifState()]
 			if cl.live {
